@@ -1,6 +1,6 @@
 import MidoModel.Codec
 import MidoModel.MsgObj
-import MidoModel.Generated.Src
+import MidoModel.Generated.SrcCodec
 import MidoProofs.SrcTie.Basic
 set_option linter.unusedSimpArgs false
 /-!
